@@ -292,6 +292,23 @@ func autoDischarge(w *World, s bceSite) (bool, string) {
 	info := s.Fn.Pkg.TypesInfo
 	ix, isIndex := s.Node.(*ast.IndexExpr)
 	if !isIndex {
+		// X[lo:hi]: 0 <= lo <= hi <= len(X) entailed by the guards (len(X) <= cap(X) for slices)
+		sl, ok := s.Node.(*ast.SliceExpr)
+		if !ok || sl.Slice3 || sl.Low == nil || sl.High == nil {
+			return false, "slice expression"
+		}
+		e := w.ent(s.Fn)
+		at := site{pos: sl.Pos(), anc: sl}
+		kc := keyCtx{e: e, s: &at}
+		var objs []types.Object
+		kc.objs = &objs
+		lo, hi := kc.norm(sl.Low), kc.norm(sl.High)
+		ln := linForm{terms: map[string]int64{"len(" + kc.key(sl.X) + ")": 1}}
+		zero := linForm{terms: map[string]int64{}}
+		goal := And{e.cmpForms(lo, zero, token.GEQ, objs), And{e.cmpForms(lo, hi, token.LEQ, objs), e.cmpForms(hi, ln, token.LEQ, objs)}}
+		if ok, how := e.Prove(sl, goal); ok {
+			return true, "guards entail 0 <= low <= high <= len: " + how
+		}
 		return false, "slice expression"
 	}
 	tv, ok := info.Types[ix.X]
@@ -316,7 +333,16 @@ func autoDischarge(w *World, s bceSite) (bool, string) {
 						xp := w.expander(s.Fn)
 						if rhs, _, _, ok := xp.def(sobj); ok && rhs != nil {
 							if mk, ok := unparen(rhs).(*ast.CallExpr); ok && isBuiltin(info, mk, "make") && len(mk.Args) >= 2 {
-								if ln, ok := unparen(mk.Args[1]).(*ast.CallExpr); ok && isBuiltin(info, ln, "len") && len(ln.Args) == 1 && exprStr(ln.Args[0]) == exprStr(rs.X) {
+								sizeArg := unparen(mk.Args[1])
+								// n := len(A); S := make(T, n): n assigned once
+								if nid := identOf(sizeArg); nid != nil {
+									if nobj, ok := info.Uses[nid].(*types.Var); ok && len(e.assigns[nobj]) == 1 && !e.addrOf[nobj] {
+										if nrhs, nidx, _, ok := xp.def(nobj); ok && nrhs != nil && nidx < 0 {
+											sizeArg = unparen(nrhs)
+										}
+									}
+								}
+								if ln, ok := sizeArg.(*ast.CallExpr); ok && isBuiltin(info, ln, "len") && len(ln.Args) == 1 && exprStr(ln.Args[0]) == exprStr(rs.X) {
 									// the ranged expression is not assigned anywhere in the function (its length is the same at make and at range)
 									reassigned := false
 									ast.Inspect(w.rootOf(s.Fn).Node(), func(n ast.Node) bool {
